@@ -51,7 +51,7 @@ class C08:
         "name exists in at least two $PATH directories or changed state in this step"
     )
     assumptions = [
-        "directory mtimes are advanced explicitly (os.utime) after create/delete/rename so that timestamp granularity never decides a verdict; chmod legitimately leaves the directory mtime alone",
+        "directory mtimes are advanced explicitly (os.utime, by 4 ms to 10 s) after create/delete/rename so that the file system's timestamp granularity never decides a verdict; chmod legitimately leaves the directory mtime alone",
         "$XONSH_COMMANDS_CACHE_READ_DIR_ONCE stays at its Linux default (empty): its never-refresh behaviour is documented and opt-in",
         "results are compared by os.path.realpath; when the POSIX model and shutil.which disagree (FIFOs and other non-regular executables) the query is counted as inconclusive, not judged",
         "the worker runs with CAP_DAC_OVERRIDE dropped so that execute bits apply to root as well",
@@ -86,7 +86,9 @@ class C08:
         self.clock = 1_000_000_000
 
     def touch_dir(self, d):
-        self.clock += 10
+        # the directory's timestamp moves on by as little as a few milliseconds or as much as ten seconds
+        self.ticks = getattr(self, "ticks", 0) + 1
+        self.clock += (10, 0.5, 3, 0.004, 1.0, 10, 0.05, 2)[self.ticks % 8]
         try:
             os.utime(d, (self.clock, self.clock))
         except OSError:
@@ -256,6 +258,11 @@ class C08:
             step_cache_ok = True
             step_had_stale = False
             rec.count("op_" + op)
+            # a directory this cache object has never listed is on $PATH now: by its own rule the cache lists it at the next
+            # question and rebuilds the merged map, so nothing answered in this step can be excused by the $PATH edit
+            must_rebuild = any(dd not in cc._paths_cache and os.path.isdir(dd) for dd in E.get_paths(env))
+            if must_rebuild:
+                rec.count("steps_with_a_never_listed_directory_on_PATH")
             cwd = os.getcwd()
             entries = [str(x) for x in env["PATH"]]
             allc = None
@@ -335,7 +342,7 @@ class C08:
                                 cause = f"unattributed/{view}/{state}-after-{op}"
                             elif listing_stale:
                                 cause = "mode-change-does-not-change-the-directory-mtime"
-                            elif latent_path_edit:
+                            elif latent_path_edit and not must_rebuild:
                                 cause = "merged-map-not-rebuilt-when-only-PATH-changed"
                             else:
                                 cause = f"unattributed/{view}/{state}-after-{op}"
@@ -360,6 +367,8 @@ class C08:
             if step_cache_ok:
                 good_paths = E.get_paths(env)
                 chmod_since_good = False
+                if must_rebuild:
+                    latent_path_edit = False  # the merged map was rebuilt from the current $PATH in this step
             if op in ("create-exe", "create-nonexe", "delete", "rename", "replace-by-dir", "symlink-to-exe") and os.path.realpath(d) in {os.path.realpath(x) for x in E.get_paths(env)}:
                 # a $PATH directory's mtime moved: the queries of this step made the cache re-list it and rebuild the merged map
                 latent_path_edit = False
